@@ -227,9 +227,9 @@ def print_axioms(module, theorems):
     os.remove(tmp)
     res = {}
     txt = p.stdout + p.stderr
-    for m in re.finditer(r"'([^']+)' depends on axioms: \[([^\]]*)\]", txt):
+    for m in re.finditer(r"'(\S+)' depends on axioms: \[([^\]]*)\]", txt):
         res[m.group(1)] = [a.strip() for a in m.group(2).replace('\n', ' ').split(',') if a.strip()]
-    for m in re.finditer(r"'([^']+)' does not depend on any axioms", txt):
+    for m in re.finditer(r"'(\S+)' does not depend on any axioms", txt):
         res[m.group(1)] = []
     return res, txt
 
